@@ -582,6 +582,9 @@ impl World {
         if !arr_conf {
             self.bump("probe.read_checked_exact");
             if let Err(e) = docgen::same_modulo_ids(&doc, &rd) {
+                if docgen::has_bang_single_object(&doc) {
+                    viol!(self, "read-equals-submitted", "read-differs:single-object-id-starts-with-bang", "{}: a flattened single object whose identifier starts with '!' is read back as a string: {}\n submitted={}\n read={}", when, e, trunc(&doc), trunc(&rd));
+                }
                 viol!(self, "read-equals-submitted", "read-differs", "{}: read differs from the submitted document: {}\n submitted={}\n read={}", when, e, trunc(&doc), trunc(&rd));
             }
         } else {
@@ -594,6 +597,9 @@ impl World {
             if want != got {
                 let missing: Vec<&String> = want.keys().filter(|k| !got.contains_key(*k)).collect();
                 let extra: Vec<&String> = got.keys().filter(|k| !want.contains_key(*k)).collect();
+                if docgen::has_bang_single_object(&doc) {
+                    viol!(self, "read-equals-submitted", "read-differs:single-object-id-starts-with-bang", "{}: a flattened single object whose identifier starts with '!' is not read back as an object (array in conflict): missing {:?} extra {:?}\n submitted={}\n read={}", when, missing, extra, trunc(&doc), trunc(&rd));
+                }
                 viol!(self, "read-objects-once", "read-objects", "{}: with an array in conflict the objects read differ from those submitted: missing {:?} extra {:?}\n submitted={}\n read={}", when, missing, extra, trunc(&doc), trunc(&rd));
             }
         }
